@@ -11,6 +11,7 @@ PROPERTY = 'C18'
 TRUSTED = [
     "builtin contract str.rsplit(sep, 1): two parts iff sep occurs; part[1] is the text after the last sep (cross-checked against CPython in the thorough tier)",
     "builtin contract str.count: non-negative; Token.new_borrow_pos / Token(...) return a fresh token of the requested type (lark.lexer.Token.__new__, external here)",
+    "Token.__eq__ (lark.lexer.Token, external here) is value equality: reflexive on one object, and equal tokens have the same type and the same text (hence the same HASNL/TAILSP/TAILTB/NONEMPTY) - axioms of the spec predicate SAMETOK",
     "reference algorithm: Python Language Reference 2.1.8 (stack of columns), validated against CPython tokenize by bounded/C18_tokenize",
 ]
 ASSUMPTIONS = [
@@ -27,7 +28,8 @@ BOUNDED = [dict(name='crosscheck.process', function='lark.indenter:Indenter.proc
 
 
 def register(reg):
-    reg.cls('Token', target='lark.lexer:Token', consts={'type': 'str'}, truthy='NONEMPTY(self)')
+    # Token.__eq__ is VALUE equality (same type and same text), not identity: two different tokens of a stream can be equal
+    reg.cls('Token', target='lark.lexer:Token', consts={'type': 'str'}, truthy='NONEMPTY(self)', eq='SAMETOK(self, other)')
     reg.cls('Indenter', target='lark.indenter:Indenter',
             fields={'paren_level': 'int', 'indent_level': 'list[int]'},
             consts={'tab_len': 'int', 'NL_type': 'str', 'INDENT_type': 'str', 'DEDENT_type': 'str',
@@ -38,6 +40,9 @@ def register(reg):
 
     reg.specfun('NONEMPTY', [('t', 'Token')], 'bool')
     reg.specfun('HASNL', [('t', 'Token')], 'bool', doc="'\\n' in token")
+    reg.specfun('SAMETOK', [('a', 'Token'), ('b', 'Token')], 'bool', doc='Token.__eq__(a, b): same type and same text',
+                axioms=['implies(a is b, SAMETOK(a, b))',
+                        'implies(SAMETOK(a, b), a.type == b.type and HASNL(a) == HASNL(b) and TAILSP(a) == TAILSP(b) and TAILTB(a) == TAILTB(b) and NONEMPTY(a) == NONEMPTY(b))'])
     reg.specfun('TAILSP', [('t', 'Token')], 'int', doc="number of ' ' after the last '\\n' of the token")
     reg.specfun('TAILTB', [('t', 'Token')], 'int', doc="number of '\\t' after the last '\\n' of the token")
     reg.specfun('BAL', [('xs', 'seq[Token]'), ('ind', 'str'), ('ded', 'str')], 'int',
@@ -52,6 +57,10 @@ def register(reg):
     reg.specfun('NORIG', [('xs', 'seq[Token]'), ('ind', 'str'), ('ded', 'str')], 'int',
                 body="0 if len(xs) <= 0 else NORIG(prefix(xs, len(xs)-1), ind, ded) + (0 if (xs[len(xs)-1].type == ind or xs[len(xs)-1].type == ded) else 1)",
                 doc='number of tokens in a sequence that are neither INDENT nor DEDENT')
+    reg.specfun('LASTCOL', [('xs', 'seq[Token]'), ('nl', 'str'), ('op', 'fset[str]'), ('cl', 'fset[str]'), ('tl', 'int')], 'int',
+                body="0 if len(xs) <= 0 else ((TAILSP(xs[len(xs)-1]) + TAILTB(xs[len(xs)-1]) * tl) if (xs[len(xs)-1].type == nl and PAREN(prefix(xs, len(xs)-1), op, cl) <= 0 and HASNL(xs[len(xs)-1])) "
+                     "else LASTCOL(prefix(xs, len(xs)-1), nl, op, cl, tl))",
+                doc='the column of the last line start seen so far: indentation of the last newline token that is outside brackets and holds a newline (0 before the first)')
     for f in ('BAL', 'NORIG'):
         reg.specfuns[f].additive = True
 
@@ -140,7 +149,9 @@ def register(reg):
                             '_i0 <= len(stream)',
                             'self.paren_level == PAREN(prefix(stream, _i0), %s)' % OPCL,
                             'BAL(out, self.INDENT_type, self.DEDENT_type) == len(self.indent_level) - 1',
-                            'NORIG(out, self.INDENT_type, self.DEDENT_type) == EMIT(prefix(stream, _i0), self.NL_type, %s)' % OPCL]),
+                            'NORIG(out, self.INDENT_type, self.DEDENT_type) == EMIT(prefix(stream, _i0), self.NL_type, %s)' % OPCL,
+                            # EVERY newline token outside brackets went through handle_NL: the open level is the column of the last line start
+                            'self.indent_level[len(self.indent_level)-1] == LASTCOL(prefix(stream, _i0), self.NL_type, %s, self.tab_len)' % OPCL]),
                         1: dict(inv=WF + [
                             'self.indent_level is old(self.indent_level)',
                             'self.paren_level == PAREN(stream, %s)' % OPCL,
